@@ -586,3 +586,71 @@ func checkC18Values(c *Ctx, n int) {
 		})
 	}
 }
+
+// checkC18IgnoredCluster: under IgnoreUnknown the parser passes a cluster that contains an undeclared
+// letter through as ONE word, whatever the letters behind the undeclared one are (a declared last letter
+// does not wait for a value; flags behind it are not applied): completion must read the typed words the
+// same way.
+func checkC18IgnoredCluster(c *Ctx, n int) {
+	r := c.Rng
+	for i := 0; i < n; i++ {
+		withPos := r.Intn(2) == 0
+		root := &StructDesc{Fields: []FieldDesc{
+			{Name: "V", Exported: true, Kind: "v", Ty: "bool", Tag: `short:"v"`},
+			{Name: "C", Exported: true, Kind: "v", Ty: "c2", Tag: `short:"c" long:"colour"`},
+			{Name: "Verbose", Exported: true, Kind: "v", Ty: "bool", Tag: `long:"verbose"`},
+			{Name: "Version", Exported: true, Kind: "v", Ty: "bool", Tag: `long:"version"`},
+		}}
+		if withPos {
+			root.Fields = append(root.Fields, FieldDesc{Name: "Args", Exported: true, Kind: "s", Tag: `positional-args:"yes"`, Sub: &StructDesc{Fields: []FieldDesc{
+				{Name: "P0", Exported: true, Kind: "v", Ty: "str"}, {Name: "P1", Exported: true, Kind: "v", Ty: "c2"}}}})
+		} else {
+			root.Fields = append(root.Fields, FieldDesc{Name: "Remove", Exported: true, Kind: "s", Tag: `command:"remove"`, Sub: &StructDesc{Fields: []FieldDesc{
+				{Name: "Force", Exported: true, Kind: "v", Ty: "bool", Tag: `long:"force"`}}}})
+		}
+		cs := &Case{Name: "app", NsDelim: ".", EnvNsDelim: "_", Opts: flags.IgnoreUnknown}
+		cs.Build = []BuildOp{{Kind: "addgroup", Target: 1, Short: "Application Options", Struct: root},
+			{Kind: "setcmd", Target: 1, Attr: "subopt", Vals: []string{"1"}}}
+		cluster := []string{"-xc", "-vxc", "-xv", "-vxv", "-vx", "-x"}[r.Intn(6)]
+		last := []string{"--ver", "re", "--colour=r"}[r.Intn(3)]
+		args := []string{cluster, last}
+		if r.Intn(3) == 0 {
+			args = []string{"-v", cluster, last}
+		}
+		cs.Ops = []Op{{Kind: "complete", Args: args}}
+		cs.Description = describeOps(cs)
+		c.RunCases([]*Case{cs}, func(cr *CaseResult) {
+			c.Class(fmt.Sprintf("c18/ignored-cluster %s last=%s positional=%v", cluster, last, withPos))
+			c.Distinct(cs.Description + fmt.Sprint(withPos))
+			compL := firstLine(cr.Impl, "COMP ")
+			if compL == "" {
+				return
+			}
+			ws := strings.Fields(compL)
+			var items []string
+			for j := 2; j < len(ws); j += 2 {
+				s, _ := unhx(ws[j])
+				items = append(items, s)
+			}
+			var want []string
+			switch last {
+			case "--ver":
+				want = []string{"--verbose", "--version"}
+			case "--colour=r":
+				want = []string{"--colour=red"}
+			default:
+				// the cluster went to the first positional field, the word is a value of the second (a
+				// colour); without fields it went to the remaining arguments: no command word any more
+				if withPos {
+					want = []string{"red"}
+				}
+			}
+			ok := fmt.Sprint(items) == fmt.Sprint(want) || (len(items) == 0 && len(want) == 0)
+			in := map[string]interface{}{"case": cs.Description, "args": args, "positional_fields": withPos}
+			if !ok {
+				in["case_file"] = c.saveCase(cr)
+			}
+			c.Check("a-passed-through-cluster-is-one-word-for-completion-too", ok, "C18:ignored-cluster", in, fmt.Sprintf("%q", items), fmt.Sprintf("%q", want))
+		})
+	}
+}
